@@ -55,8 +55,7 @@ package lexer
 //@ func (*PeekingLexer).Range [C12 C11 C06]
 //@   requires 0 <= rawStart && rawStart <= rawEnd && rawEnd <= len(p.tokens)
 //@   pure
-//@   ensures len(result) == rawEnd - rawStart
-//@   ensures forall(k, 0, rawEnd - rawStart, &result[k] == &p.tokens[rawStart + k])
+//@   ensures len(result) == rawEnd - rawStart && result == p.tokens[rawStart:rawEnd]
 
 //@ func (Checkpoint).Cursor [C12]
 //@   pure
@@ -69,19 +68,19 @@ package lexer
 //@ func (*PeekingLexer).Peek [C12 C10 C11 C06]
 //@   requires plInv(p)
 //@   pure
-//@   ensures result == &p.tokens[p.nextCursor]
+//@   ensures result != nil && result == &p.tokens[p.nextCursor]
 //@   ensures p.rawCursor <= p.nextCursor && forall(k, p.rawCursor, p.nextCursor, elidedAt(p, k)) && stopAt(p, p.nextCursor)
 
 //@ func (*PeekingLexer).RawPeek [C12 C11 C06]
 //@   requires plInv(p)
 //@   pure
-//@   ensures result == &p.tokens[p.rawCursor]
+//@   ensures result != nil && result == &p.tokens[p.rawCursor]
 
 //@ func (*PeekingLexer).Next [C12 C10 C06]
 //@   requires plInv(p)
 //@   modifies p.Checkpoint
 //@   ensures plInv(p)
-//@   ensures result == &p.tokens[old(p.nextCursor)]
+//@   ensures result != nil && result == &p.tokens[old(p.nextCursor)]
 //@   ensures eofAt(p, old(p.nextCursor)) ==> p.Checkpoint == old(p.Checkpoint)
 //@   ensures !eofAt(p, old(p.nextCursor)) ==> p.rawCursor == old(p.nextCursor)+1 && p.cursor == old(p.cursor)+1
 //@   use cntSkip(p, old(p.rawCursor), old(p.nextCursor)) at entry
@@ -111,6 +110,10 @@ package lexer
 //@   ensures plInv(p)
 //@   ensures p.rawCursor == ite(rawCursor < old(p.rawCursor), old(p.rawCursor), min(rawCursor+1, eofIdx(p)))
 //@   ensures p.cursor == old(p.cursor) + cnt(p, p.rawCursor) - cnt(p, old(p.rawCursor))
+//@   ensures p.cursor >= old(p.cursor) && p.rawCursor >= old(p.rawCursor)
+//@   ensures old(p.rawCursor) <= rawCursor && rawCursor <= old(p.nextCursor) && !eofAt(p, rawCursor) ==> p.rawCursor == rawCursor + 1 && p.cursor == old(p.cursor) + ite(liveAt(p, rawCursor), 1, 0)
+//@   use cntMono(p, old(p.rawCursor), p.rawCursor) at exit
+//@   use cntSkip(p, old(p.rawCursor), rawCursor) at exit
 //@   loop 1 invariant old(p.rawCursor) <= p.rawCursor && p.rawCursor <= eofIdx(p)
 //@   loop 1 invariant p.rawCursor <= max(old(p.rawCursor), rawCursor+1)
 //@   loop 1 invariant p.cursor == cnt(p, p.rawCursor)
